@@ -9,7 +9,7 @@ import os
 import sys
 
 VERIF = os.path.dirname(os.path.dirname(os.path.abspath(__file__)))
-path = os.path.join(VERIF, "known_findings.json")
+path = os.path.join(VERIF, "tools", "findings_extra.json")
 
 
 def main():
@@ -65,6 +65,7 @@ def main():
         json.dump(data, fd, indent=1, ensure_ascii=True)
         fd.write("\n")
     print(f"added {n} findings; total {len(data['findings'])}")
+    os.system(f"/venv/bin/python {os.path.join(VERIF, 'tools', 'findings_src.py')}")
 
 
 main()
